@@ -49,6 +49,9 @@ manifest = {
     "engines": [
         {"name": "plain", "path": "/verif/target/plain", "kind_free_text": "native harness build with hooks, debug assertions and overflow checks on; behavioural monitors, event-log checkers, canary allocator",
          "serves_properties": [c["property_id"] for c in checks]},
+        {"name": "plain-iour / plain-poll", "path": "/verif/target/plain-iour, /verif/target/plain-poll",
+         "kind_free_text": "the plain build with compio-driver compiled in its single-driver configurations (io-uring only = compio's default build; polling only): same workloads and monitors over the #[cfg(not(fusion))] glue",
+         "serves_properties": [pid for pid in ALL if pid in props.PROPS and any(l["build"] in ("plain-iour", "plain-poll") for l in props.PROPS[pid]["legs"])]},
         {"name": "miri", "path": "cargo +nightly miri run (target dir /verif/target/miri)", "kind_free_text": "undefined-behaviour / data-race / leak interpreter with weak-memory emulation and seeded schedules",
          "serves_properties": [pid for pid in ALL if pid in props.PROPS and any(l["build"] == "miri" for l in props.PROPS[pid]["legs"])]},
         {"name": "asan", "path": "/verif/target/asan", "kind_free_text": "AddressSanitizer build (nightly -Zsanitizer=address)",
